@@ -22,8 +22,20 @@ HdrBytes(hdr, L) == IF hdr = 8 THEN <<(8 + L) \div 16777216, ((8 + L) \div 65536
                     ELSE <<0, 0, 0, 1, 109, 100, 97, 116, 0, 0, 0, 0, 0, 0, ((16 + L) \div 256) % 256, (16 + L) % 256>>
 
 \* ---- layouts: pre = bytes before the mdat box, post = bytes after it
-RangeLayouts == [pre : Pres, hdr : {8, 16}, L : 1 .. MaxL, post : {0, 9}, order : {"moov-mdat", "mdat-moov", "frag"}]
-PayloadStart(l) == l.pre + l.hdr
+\* emd: an additional EMPTY mdat box (8 bytes, as left behind by some muxers) directly before or after the
+\* data mdat of a progressive file; File.Mdat must still be the data mdat in both modes
+RangeLayouts == {l \in [pre : Pres, hdr : {8, 16}, L : 1 .. MaxL, post : {0, 9}, order : {"moov-mdat", "mdat-moov", "frag"}, emd : {"none", "before", "after"}] :
+                    /\ (l.order = "frag" => l.emd = "none")
+                    /\ (l.order = "moov-mdat" => l.emd # "before")}
+HasEmd(l) == "emd" \in DOMAIN l /\ l.emd # "none"
+EmdBefore(l) == IF "emd" \in DOMAIN l /\ l.emd = "before" THEN 8 ELSE 0
+PayloadStart(l) == l.pre + EmdBefore(l) + l.hdr
+\* model of File.AddChild for progressive files: keep the current mdat unless it is nil or empty
+\* (emptiness = box size - header size, independent of the decode mode)
+MdatLens(l) == IF ~HasEmd(l) THEN <<l.L>> ELSE IF l.emd = "before" THEN <<0, l.L>> ELSE <<l.L, 0>>
+RECURSIVE PickMdat(_, _, _)
+PickMdat(lens, i, cur) == IF i > Len(lens) THEN cur ELSE PickMdat(lens, i + 1, IF cur = 0 \/ lens[cur] = 0 THEN i ELSE cur)
+ImplPicksData(l) == PickMdat(MdatLens(l), 1, 0) = (IF EmdBefore(l) > 0 THEN 2 ELSE 1)
 CopyLayouts == UNION {{[pre |-> p, hdr |-> h, spc |-> c, uniform |-> u, gap |-> g, N |-> n] :
                           c \in Comp(n), u \in BOOLEAN, g \in {0, 2}, h \in {8, 16}, p \in Pres} : n \in 1 .. MaxN}
 SizesOf(l) == IF l.uniform THEN Rep(3, l.N) ELSE [i \in 1 .. l.N |-> i + 1]
@@ -37,9 +49,9 @@ PayloadLen(l) == LET o == ChunkOffs(l)  z == SizesOf(l)  C == Len(l.spc) IN
 \* ---- Impl: range reads
 ImplReadNormal(l, start, size) ==
     LET off == start - PayloadStart(l)  end == off + size IN
-    IF off < 0 \/ off >= l.L \/ end > l.L THEN "err" ELSE [from |-> start, to |-> start + size - 1]
+    IF ~ImplPicksData(l) \/ off < 0 \/ off >= l.L \/ end > l.L THEN "err" ELSE [from |-> start, to |-> start + size - 1]
 ImplReadLazy(l, start, size) ==
-    IF start + size > l.pre + l.hdr + l.L + l.post THEN "err" ELSE [from |-> start, to |-> start + size - 1]
+    IF ~ImplPicksData(l) \/ start + size > l.pre + l.hdr + l.L + l.post + (IF HasEmd(l) THEN 8 ELSE 0) THEN "err" ELSE [from |-> start, to |-> start + size - 1]
 
 \* ---- Impl: CopySampleData. pieces = byte ranges per containing chunk; tokens as sequences
 Toks(from, n) == [i \in 1 .. n |-> from + i - 1]
